@@ -60,14 +60,18 @@ fn walk_attached(doc: &xml_dom::XmlDocument) -> Vec<XmlNode> {
     v
 }
 
-/// position of every attached node in a walk that merges adjacent character data into one
-/// position and drops empty text (what a re-parse of the serialization produces)
-fn positions(doc: &xml_dom::XmlDocument) -> std::collections::HashMap<(Kind, usize), String> {
+/// Position of every attached node in the walk a re-parse of the serialization produces: adjacent
+/// Text nodes are one position (they are printed back to back and parsed as one), an empty Text node
+/// has no position (it prints as nothing).  The flag says whether the tree is *normalized* (no
+/// adjacent or empty Text nodes): only then do positional predicates mean the same thing on the
+/// edited document and on its re-parse.
+fn positions(doc: &xml_dom::XmlDocument) -> (std::collections::HashMap<(Kind, usize), String>, bool) {
     let mut map = std::collections::HashMap::new();
-    fn is_chars(n: &XmlNode) -> bool {
-        matches!(n, XmlNode::Text(_) | XmlNode::CData(_) | XmlNode::EntityReference(_) | XmlNode::ExpandedText(_))
+    let mut normalized = true;
+    fn is_text(n: &XmlNode) -> bool {
+        matches!(n, XmlNode::Text(_) | XmlNode::ExpandedText(_))
     }
-    fn rec(n: &XmlNode, path: &str, map: &mut std::collections::HashMap<(Kind, usize), String>) {
+    fn rec(n: &XmlNode, path: &str, map: &mut std::collections::HashMap<(Kind, usize), String>, normalized: &mut bool) {
         map.insert((kind_of(n), n.id()), path.to_string());
         if let XmlNode::Element(e) = n {
             if let Some(attrs) = e.attributes() {
@@ -81,49 +85,56 @@ fn positions(doc: &xml_dom::XmlDocument) -> std::collections::HashMap<(Kind, usi
             let mut k = 0;
             let mut in_run = false;
             for c in n.child_nodes().iter() {
-                if is_chars(&c) {
-                    let empty = Live::value_of(&c).is_empty() && matches!(c, XmlNode::Text(_));
-                    if !in_run {
-                        if empty {
-                            // an empty text node disappears in the serialization; it gets the
-                            // position of the run it would belong to, if any follows
-                            map.insert((kind_of(&c), c.id()), format!("{}/#{}", path, k));
-                            continue;
-                        }
+                if is_text(&c) {
+                    if Live::value_of(&c).is_empty() {
+                        *normalized = false;
+                        map.insert((kind_of(&c), c.id()), EMPTY.to_string());
+                        continue;
+                    }
+                    if in_run {
+                        *normalized = false;
+                    } else {
                         in_run = true;
                         k += 1;
                     }
-                    map.insert((kind_of(&c), c.id()), format!("{}/#{}", path, k - 1 + 1 - 1));
-                    // position of the run = index k-1
                     map.insert((kind_of(&c), c.id()), format!("{}/{}", path, k - 1));
                 } else {
                     in_run = false;
-                    rec(&c, &format!("{}/{}", path, k), map);
+                    rec(&c, &format!("{}/{}", path, k), map, normalized);
                     k += 1;
                 }
             }
         }
     }
-    rec(&doc.as_node(), "", &mut map);
-    map
+    rec(&doc.as_node(), "", &mut map, &mut normalized);
+    (map, normalized)
 }
 
-fn query_positions(doc: &xml_dom::XmlDocument, q: &str) -> Result<Vec<String>, String> {
-    let pos = positions(doc);
+const EMPTY: &str = "<empty-text>";
+
+fn is_positional(q: &str) -> bool {
+    q.contains('[') && !q.contains("[@")
+}
+
+fn query_positions(doc: &xml_dom::XmlDocument, q: &str) -> Result<(Vec<String>, bool), String> {
+    let (pos, normalized) = positions(doc);
     let mut ctx = xml_xpath::eval::model::Context::default();
     match xml_xpath::query(doc.clone(), q, &mut ctx) {
         Ok(xml_xpath::eval::model::Value::Node(ns)) => {
             let mut out: Vec<String> = vec![];
             for n in ns {
                 let p = pos.get(&(kind_of(&n), n.id())).cloned().unwrap_or_else(|| format!("?{}", kind_of(&n).tag()));
-                // adjacent character-data pieces of one run are one node after a re-parse
+                if p == EMPTY {
+                    continue;
+                }
+                // adjacent Text pieces of one run are one node after a re-parse
                 if out.last() != Some(&p) {
                     out.push(p);
                 }
             }
-            Ok(out)
+            Ok((out, normalized))
         }
-        Ok(other) => Ok(vec![format!("{:?}", other)]),
+        Ok(other) => Ok((vec![format!("{:?}", other)], normalized)),
         Err(e) => Err(format!("{:?}", e)),
     }
 }
@@ -181,6 +192,14 @@ pub fn order_monitors(l: &Live, queries: &[&str]) -> Vec<(String, String, String
         match r {
             Err(m) => out.push((format!("query-panic/{}", panic_site(&m)), format!("query {} panicked on the edited document", q), "a value".into(), m)),
             Ok((a, b)) => {
+                let normalized = a.as_ref().map(|x| x.1).unwrap_or(true);
+                if !normalized && is_positional(q) {
+                    // adjacent / empty Text nodes: a position on the edited tree and on its re-parse
+                    // do not denote the same thing; the non-positional queries still must agree
+                    continue;
+                }
+                let a = a.map(|x| x.0);
+                let b = b.map(|x| x.0);
                 if a != b {
                     let shape = match (&a, &b) {
                         (Ok(x), Ok(y)) => {
